@@ -244,6 +244,7 @@ def directed_cases() -> List[dict]:
         mask = (1 << w) - 1
         top = 1 << (w - lw)          # number of words reachable by w-bit bit addresses
         harmless = 3 * w
+        dw = 2 * w
         # op 0 jumps to an op on the LAST word of the address space: its jump word is word `top` (bit address 2^w)
         out.append({"w": w, "segs": [[0, 4], [top - 2, 2]], "data": {0: harmless, 1: ((top - 1) * w) & mask},
                     "inp": [], "version": 1, "tag": "jump-word-beyond-top"})
@@ -259,6 +260,20 @@ def directed_cases() -> List[dict]:
         # flip of the very last bit of the address space, and of the first bit above the last segment
         out.append({"w": w, "segs": [[0, 6], [top - 2, 2]], "data": {0: mask, 1: 2 * w, 2: ((top - 2) * w - 1) & mask, 3: 2 * w},
                     "inp": [], "version": 1, "tag": "flip-last-bit"})
+        # self-referential ops at every alignment: an op that jumps to ITSELF and flips a bit of its own flip word /
+        # its own jump word (not a halt), or a bit just outside itself (a halt) - op 0 jumps to it
+        nwords = 10
+        for off in (0, 1, lw + 1, w - 1, w, w + 1, dw - 1):
+            A = 4 * w + off
+            for rel in (0, w - 1, w, w + lw, dw - 1, -1, dw):
+                f = A + rel
+                jpre = A ^ (1 << (rel - w)) if w <= rel < dw else A        # the jump word equals A after the flip
+                bits = harmless | (A << w)                                   # op 0: harmless flip; jump to A
+                bits |= (f & mask) << A
+                bits |= (jpre & mask) << (A + w)
+                data = {k: (bits >> (k * w)) & mask for k in range(nwords) if (bits >> (k * w)) & mask}
+                out.append({"w": w, "segs": [[0, nwords]], "data": data, "inp": [], "version": (off + rel) % 4,
+                            "tag": f"self-op off={off} flip={rel}"})
     return out
 
 
